@@ -30,7 +30,7 @@ type c14Spec struct {
 
 type c14Harness struct{}
 
-var c14Kinds = []string{"lifetime-expiry", "lifetime-expiry", "lifetime-host", "unique", "burst-sessions", "burst-sessions", "burst-receivers", "burst-receivers", "burst-conns", "msgsize", "msgrate", "reconnect-receivers"}
+var c14Kinds = []string{"lifetime-expiry", "lifetime-expiry", "lifetime-host", "unique", "burst-sessions", "burst-sessions", "burst-receivers", "burst-receivers", "burst-conns", "msgsize", "msgrate", "reconnect-receivers", "iprate"}
 
 func (c14Harness) Gen(r *verifsim.SplitMix, tier string, idx int) any {
 	sp := c14Spec{Seed: r.Next(), SegMax: []int{64, 1400, 65536}[r.Intn(3)]}
@@ -50,6 +50,10 @@ func (c14Harness) Gen(r *verifsim.SplitMix, tier string, idx int) any {
 		if sp.Limit > 0 {
 			sp.N = sp.Limit + 1 + r.Intn(3)
 		}
+	case "iprate":
+		sp.Rate = 1 + r.Intn(3)  // per minute
+		sp.Limit = 1 + r.Intn(3) // burst
+		sp.N = 30 + r.Intn(120)  // seconds of silence between the two bursts
 	case "reconnect-receivers":
 		sp.Limit = 2 + r.Intn(3)
 		sp.N = 2 + r.Intn(3) // newcomers tried after the reconnect
@@ -121,6 +125,9 @@ func (c14Harness) Run(spec any) (res verifsim.RunResult) {
 		flags = append(flags, "--max-receivers-per-sender", fmt.Sprint(sp.Limit))
 	case "burst-conns":
 		flags = append(flags, "--max-ws-connections", fmt.Sprint(sp.Limit), "--max-receivers-per-sender", "0")
+	case "iprate":
+		flags = append(flags, "--session-creates-per-min", fmt.Sprint(sp.Rate), "--session-creates-burst", fmt.Sprint(sp.Limit),
+			"--ws-connects-per-min", fmt.Sprint(sp.Rate), "--ws-connects-burst", fmt.Sprint(sp.Limit), "--max-sessions", "0")
 	case "msgsize":
 		flags = append(flags, "--max-message-bytes", fmt.Sprint(sp.Limit), "--ws-msgs-per-sec", "0")
 	case "msgrate":
@@ -343,6 +350,44 @@ func (c14Harness) Run(spec any) (res verifsim.RunResult) {
 					addV("limit-exceeded", name, fmt.Sprintf("--%s %d but %d connections were admitted at once (%d concurrent receivers)", name, sp.Limit, total, sp.N))
 				}
 			}()
+		case "iprate":
+			// one address uses up its burst of session creations and of connection attempts, is
+			// silent for a while, and comes back: over the whole time at most burst + rate x T
+			verifsim.Go("K", func() {
+				defer done.Add(1)
+				t0 := time.Now()
+				created, connected := 0, 0
+				var code string
+				burst := func() {
+					for i := 0; i < sp.Limit+2; i++ {
+						if si, err := w.createSession("10.0.3.7", ""); err == nil && si.Status == 201 {
+							created++
+							code = si.Code
+						}
+					}
+					for i := 0; i < sp.Limit+2 && code != ""; i++ {
+						if st, c := try("10.0.3.7", code, fmt.Sprintf("p%d-%d", connected, i), "receiver"); st == 101 {
+							connected++
+							c.Close()
+						}
+					}
+				}
+				burst()
+				time.Sleep(time.Duration(sp.N) * time.Second)
+				burst()
+				elapsed := time.Since(t0)
+				allowed := sp.Limit + int(float64(sp.Rate)*elapsed.Minutes()) + 1
+				res.Counters["iprate_scenarios"]++
+				if created > allowed {
+					addV("limit-exceeded", "session-creates-per-min", fmt.Sprintf("--session-creates-per-min %d --session-creates-burst %d: %d sessions created from one address within %v (two bursts %d s apart), allowed %d", sp.Rate, sp.Limit, created, elapsed, sp.N, allowed))
+				}
+				if connected > allowed {
+					addV("limit-exceeded", "ws-connects-per-min", fmt.Sprintf("--ws-connects-per-min %d --ws-connects-burst %d: %d connections admitted from one address within %v (two bursts %d s apart), allowed %d", sp.Rate, sp.Limit, connected, elapsed, sp.N, allowed))
+				}
+				if created < 1 {
+					addV("limit-refused-below-limit", "session-creates-burst", fmt.Sprintf("burst %d but no session could be created", sp.Limit))
+				}
+			})
 		case "reconnect-receivers":
 			// receivers up to one below the limit; one of them connects again under the same
 			// peer id while its first connection is open, then the first one closes; then
